@@ -40,7 +40,7 @@ func (c11) Cases(tier string) int {
 func (c11) Describe() core.Info {
 	return core.Info{
 		Level: "exploration",
-		Rule: "declared programs written as source text: an extensional predicate q declared with one or two bound rows drawn from the type-expression generator (base types, name-prefix types incl. prefix-of-a-prefix names /foo vs /foobar, singletons, unions, pairs, lists, maps, structs with optional fields, tagged unions; function and dot syntax) with base facts that are members by construction and near-misses (sibling prefix, wrong shape, extra struct field); an intensional predicate p declared with a related bound (same, widened, narrowed, mutated) and one rule that copies, projects, constructs (fn:pair, list, map, struct) or destructures (:match_pair, :list:member, :match_field, :match_entry) values, or joins q (two bound rows) with a wider predicate src on the same variable in either premise order, or narrows a union of name-prefix types by one or two negated :match_prefix premises over a small name trie. Programs are submitted to AnalyzeAndCheckBounds(ErrorForBoundsMismatch); every accepted program is evaluated and every stored fact of a user-declared predicate is judged by the library's own run-time check (builtin.TypeChecker.CheckTypeBounds). Non-trivial: program accepted and the declared intensional predicate has a derived fact; distinct by program text.",
+		Rule: "declared programs written as source text: an extensional predicate q declared with one or two bound rows drawn from the type-expression generator (base types, name-prefix types incl. prefix-of-a-prefix names /foo vs /foobar, singletons, unions, pairs, lists, maps, structs with optional fields, tagged unions; function and dot syntax) with base facts that are members by construction and near-misses (sibling prefix, wrong shape, extra struct field); an intensional predicate p declared with a related bound (same, widened, narrowed, mutated) and one rule that copies, projects, constructs (fn:pair, list, map, struct) or destructures (:match_pair, :list:member, :match_field, :match_entry) values, or joins q (two bound rows) with a wider predicate src on the same variable in either premise order, or narrows a union of name-prefix types by one or two negated :match_prefix premises over a small name trie, or derives a declared predicate from an undeclared recursive one whose values change type at every hop (clauses in either order). Programs are submitted to AnalyzeAndCheckBounds(ErrorForBoundsMismatch); every accepted program is evaluated and every stored fact of a user-declared predicate is judged by the library's own run-time check (builtin.TypeChecker.CheckTypeBounds). Non-trivial: program accepted and the declared intensional predicate has a derived fact; distinct by program text.",
 		Assumptions: []string{"the run-time judgement is the library's own, as the property states", "rejected programs are not judged"},
 	}
 }
@@ -152,8 +152,53 @@ func (c11) Gen(r *rand.Rand, tier string, i int) any {
 	if !c12WellFormed(pt) || strings.Contains(fmt.Sprint(pt), "fn:Option") {
 		pt = t
 	}
-	shapes := []string{"copy", "pair", "list", "struct", "map", "member", "match-pair", "match-field", "copy-second-row", "cons", "join", "join-rev", "join-two-rows", "neg-prefix"}
+	shapes := []string{"copy", "pair", "list", "struct", "map", "member", "match-pair", "match-field", "copy-second-row", "cons", "join", "join-rev", "join-two-rows", "neg-prefix", "recursive-undeclared"}
 	shape := shapes[r.Intn(len(shapes))]
+	if shape == "recursive-undeclared" {
+		// an undeclared recursive predicate whose values change type along the recursion (step has one bound row per
+		// hop); its inferred type has to cover every hop, in whichever order its clauses are written
+		kinds := [][2]string{{"/number", "1"}, {"/string", "\"a\""}, {"/n", "/n/one"}, {"/m/x", "/m/x/y"}, {"/float64", "2.5"}}
+		perm := r.Perm(len(kinds))
+		hops := 2 + r.Intn(2)
+		var nb strings.Builder
+		nb.WriteString("Decl step(X, Y)")
+		for h := 0; h < hops; h++ {
+			fmt.Fprintf(&nb, " bound [%s, %s]", kinds[perm[h]][0], kinds[perm[h+1]][0])
+		}
+		nb.WriteString(".\n")
+		for h := 0; h < hops; h++ {
+			fmt.Fprintf(&nb, "step(%s, %s).\n", kinds[perm[h]][1], kinds[perm[h+1]][1])
+		}
+		fmt.Fprintf(&nb, "Decl start(X) bound [%s].\nstart(%s).\n", kinds[perm[0]][0], kinds[perm[0]][1])
+		rules := []string{"r(X) :- start(X).\n", "r(Y) :- r(X), step(X, Y).\n"}
+		if r.Intn(2) == 0 {
+			rules[0], rules[1] = rules[1], rules[0]
+		}
+		if r.Intn(3) == 0 {
+			rules[1] = strings.Replace(rules[1], "r(X), step(X, Y)", "step(X, Y), r(X)", 1)
+			rules[0] = strings.Replace(rules[0], "r(X), step(X, Y)", "step(X, Y), r(X)", 1)
+		}
+		nb.WriteString(rules[0] + rules[1])
+		covered := 1 + r.Intn(hops+1) // how many of the hop types the declaration of out admits
+		nb.WriteString("Decl out(X)")
+		if r.Intn(2) == 0 {
+			var ts []string
+			for h := 0; h < covered; h++ {
+				ts = append(ts, kinds[perm[h]][0])
+			}
+			if len(ts) == 1 {
+				fmt.Fprintf(&nb, " bound [%s]", ts[0])
+			} else {
+				fmt.Fprintf(&nb, " bound [%s]", wrap2(syntax, "Union", ts...))
+			}
+		} else {
+			for h := 0; h < covered; h++ {
+				fmt.Fprintf(&nb, " bound [%s]", kinds[perm[h]][0])
+			}
+		}
+		nb.WriteString(".\nout(X) :- r(X).\n")
+		return c11Case{Text: nb.String(), Shape: shape, Syntax: syntax}
+	}
 	if shape == "neg-prefix" {
 		// a variable typed as a union of name-prefix types is narrowed by a negated :match_prefix: only a member
 		// that lies below the negated prefix may be removed from the union
@@ -381,11 +426,11 @@ func (c11) Run(cs any) core.Result {
 	tc := builtin.NewTypeCheckerFromDesugared(pi.Decls)
 	derived := 0
 	for _, f := range allFacts(store) {
-		if f.Predicate.Symbol != "p" && f.Predicate.Symbol != "q" {
+		if f.Predicate.Symbol != "p" && f.Predicate.Symbol != "q" && f.Predicate.Symbol != "out" {
 			continue
 		}
 		res.Ob("facts_judged", 1)
-		if f.Predicate.Symbol == "p" {
+		if f.Predicate.Symbol == "p" || f.Predicate.Symbol == "out" {
 			derived++
 		}
 		if err := tc.CheckTypeBounds(f); err != nil {
